@@ -548,10 +548,16 @@ def replay(cfg, cex):
             csvf = os.path.join(td, "links.csv")
             with open(csvf, "w", newline="") as f:
                 f.write("".join(",".join([lab] + frs) + "\r\n" for lab, frs in table))
-            mod.make_mesh_fragment_links(csvf, td, no_colon_suffix=True, options={"gzip": False})
+            try:
+                mod.make_mesh_fragment_links(csvf, td, no_colon_suffix=True, options={"gzip": False})
+            except Exception as e:
+                return True, f"link-mesh-fragments raised {type(e).__name__}: {e} on a well-formed table"
             for lab, frs in table:
-                with open(os.path.join(td, "mesh", lab)) as f:
-                    got = _json.load(f)
+                try:
+                    with open(os.path.join(td, "mesh", lab)) as f:
+                        got = _json.load(f)
+                except OSError as e:
+                    return True, f"label {lab}: no link file ({e})"
                 if got != {"fragments": frs}:
                     return True, f"label {lab}: link file lists {got}, expected fragments {frs}"
         return False, "fragment links correct on the real code"
